@@ -34,6 +34,8 @@ class CutDirector(FaultDirector):
         super().__init__(rng, spec)
         self.cut = cut
 
+    lo_race = None       # {"p", "delay"}: hold the reply to the first ListOffsets naming partition p (a position reset in flight)
+    on_lo_race = None
     race = None          # {"p", "delay"}: hold the reply to the first Fetch of partition p at an out-of-range offset
     on_race = None       # ... and tell the driver, which seeks while that reply is in flight
 
@@ -43,6 +45,14 @@ class CutDirector(FaultDirector):
         plan = super().plan(cluster, ctx)
         if ctx.api == "OffsetFetch" and self.slow_offset_fetch:
             plan.delay_out = max(plan.delay_out, self.slow_offset_fetch)
+        if self.lo_race and ctx.api == "ListOffsets" and plan.fault is None:
+            for topic, parts in ctx.req.topics:
+                if any(pi[0] == self.lo_race["p"] for pi in parts):
+                    plan.delay_out = max(plan.delay_out, self.lo_race["delay"])
+                    cb, self.lo_race = self.on_lo_race, None
+                    if cb:
+                        cb()
+                    return plan
         if self.race and ctx.api == "Fetch" and plan.fault is None:
             for topic, parts in ctx.req.topics:
                 for pinfo in parts:
@@ -215,6 +225,13 @@ def run_scenario(sc: dict):
             if ev[1] == "move":
                 loop.call_later(ev[0], cl.move_leader, TOPIC, ev[2], ev[3])
         director.slow_offset_fetch = sc.get("slow_offset_fetch", 0.0)
+        if sc.get("reset_race"):
+            # the application seeks while the ListOffsets of a position reset (no committed offset / seek_to_end) is in flight
+            rr = sc["reset_race"]
+            director.lo_race = {"p": rr["p"], "delay": rr["delay"]}
+            ctx_app2 = __import__("contextvars").copy_context()
+            director.on_lo_race = lambda: loop.call_later(rr["delay"] * rr.get("at", 0.5), lambda: cons.seek(tps[rr["p"]], rr["seek"]),
+                                                          context=ctx_app2)
         if sc.get("oor_race"):
             # the application seeks while the broker's OFFSET_OUT_OF_RANGE answer for the old position is in flight
             rc = sc["oor_race"]
